@@ -88,7 +88,9 @@ def atom_texts():
         out.append(f'"3.8" {op} python_version')
         out.append(f'python_full_version {op} "3.7.2"')
     out += ['python_version in "3.7, 3.8"', 'python_version not in "3.7, 3.8"', 'python_full_version == "3.7.*"', 'python_full_version != "3.7.*"',
-            '"3.7.2" <= python_full_version', 'python_version >= "3"', "os_name == 'b'"]
+            '"3.7.2" <= python_full_version', 'python_version >= "3"', "os_name == 'b'",
+            'python_version > "3"', 'python_version <= "3"', 'python_version == "3"', 'python_version != "3"', '"3.7.2" > python_full_version',
+            '"3.8.0" < python_full_version', 'python_version >= "3.8.0"', 'python_version != "3.7.0"']
     return out
 
 
@@ -174,6 +176,40 @@ def contexts(chk, dom):
             chk.ok("R03.3", key=(text, ctx, str(env)))
 
 
+def prerelease_envs(chk, dom):
+    """R03.3: single-atom texts evaluated at pre-/post-/dev-release interpreter versions (PEP 440 exclusive ordering)."""
+    from ..markdomain import atom_truth
+    from .c02 import OBS_PRERELEASE
+    base = {k: (set(v) if isinstance(v, frozenset) else v) for k, v in dom.envs.envs[0].items()}
+    for text in atom_texts():
+        tree = parse_marker_text(text)
+        if tree[0] != "atom" or not tree[1].startswith("python"):
+            continue
+        try:
+            m = dom.parse(text)
+        except PyRaise:
+            continue
+        for full in OBS_PRERELEASE:
+            pv = ".".join(full.split(".")[:2])
+            env = dict(base)
+            env["python_full_version"], env["python_version"] = full, pv
+            val = full if tree[1] == "python_full_version" else pv
+            try:
+                exp = atom_truth(tree[1], tree[2], tree[3], tree[4], val)
+                got = dom.evaluate(m, env)
+            except Undefined:
+                continue
+            except PyRaise as e:
+                chk.fail("R03.3", "dep_logic.markers.single:MarkerExpression._evaluate:raises", f"{text!r} at {val}: {e.exc!r}")
+                continue
+            chk.instance("R03.3")
+            if got != exp:
+                chk.fail("R03.3", f"dep_logic.markers.single:MarkerExpression._evaluate:prerelease-env{':literal-left' if tree[4] else ''}",
+                         f"parse_marker({text!r}).evaluate at {tree[1]}={val!r} is {got}; the PEP 508/440 reference is {exp}")
+            else:
+                chk.ok("R03.3", key=(text, val))
+
+
 def run(chk):
     src = str(chk.src)
     chk.explanation = (
@@ -214,6 +250,7 @@ def run(chk):
     chk.evaluations += good
     chk.nontrivial.update(("R03.2", i) for i in range(max(0, good - len(atoms))))
     contexts(chk, dom)
+    prerelease_envs(chk, dom)
     chk.sample({"text": texts[len(atoms) + 3]})
     chk.sample({"text": texts[-1]})
     chk.exhaustive = False
